@@ -224,6 +224,31 @@ def handle (line : String) : String :=
       | none, _ => "none"
     | .ok _ => "none"
     | .error e => s!"parse-error {e}"
+  | [kind, am, len, ets, name, l, r] =>
+    if kind != "tindex-reported" && kind != "tindex-ir" then "bad-op" else
+    match runBranches [l, r], (if ets == "" then .ok [] else (ets.splitOn "&").mapM readType) with
+    | .ok (some [tl, tr]), .ok et =>
+      match TableType.indexAnnotate TableType.rootReported tl tr et (am == "1") (len == "1") name,
+            TableType.indexAnnotate TableType.rootIR tl tr et (am == "1") (len == "1") name with
+      | some t, some t' => showTT (if kind == "tindex-ir" then t' else t)
+      | some _, none => if kind == "tindex-ir" then "ill-typed" else "none"
+      | none, _ => "none"
+    | .ok _, .ok _ => "none"
+    | .error e, _ => s!"parse-error {e}"
+    | _, .error e => s!"parse-error {e}"
+  | [kind, ax, am, len, ets, name, view, l, r] =>
+    if kind != "mindex-reported" && kind != "mindex-ir" then "bad-op" else
+    match runMOps MatrixType.range l, runOps r, readAxis ax, (if ets == "" then .ok [] else (ets.splitOn "&").mapM readType) with
+    | .ok (some ml), .ok (some tr), some a, .ok et =>
+      match MatrixType.indexAnnotate TableType.rootReported ml a tr et (am == "1") (len == "1") name,
+            MatrixType.indexAnnotate TableType.rootIR ml a tr et (am == "1") (len == "1") name with
+      | some t, some t' => showMT view (if kind == "mindex-ir" then t' else t)
+      | some _, none => if kind == "mindex-ir" then "ill-typed" else "none"
+      | none, _ => "none"
+    | .error e, _, _, _ => s!"parse-error {e}"
+    | _, .error e, _, _ => s!"parse-error {e}"
+    | _, _, _, .error e => s!"parse-error {e}"
+    | _, _, _, _ => "none"
   | ["matrix", view, ops] =>
     match runMOps MatrixType.range ops with
     | .ok (some m) => showMT view m
